@@ -88,6 +88,13 @@ func (e *c15Env) Func(ctx sim.HookCtx) {
 			} else if e.lastRsp[rsp.GetRspTo()] != nil {
 				e.r.Count("c15.rsp-consumed.overwrites-earlier")
 			}
+			// keep the payload as the lower level sent it: the ROB holds the same message object and
+			// may touch it while the response waits for its turn
+			if dr, ok := rsp.(*mem.DataReadyRsp); ok {
+				cp := *dr
+				cp.Data = append([]byte(nil), dr.Data...)
+				rsp = &cp
+			}
 			e.lastRsp[rsp.GetRspTo()] = rsp
 		}
 	case port == e.top && ctx.Pos == sim.HookPosPortMsgSend:
